@@ -74,7 +74,8 @@ C07S == { Q1(X), Q1(Y), Eq(X, a), Eq(X, Y), Cut, Fail, True, T1(Y), C1("var", X)
 C07Level1 == { Disj(g1, g2) : g1 \in C07S, g2 \in C07S } \cup { It(g1, g2) : g1 \in C07S, g2 \in C07S }
              \cup { Conj(g1, g2) : g1 \in C07S, g2 \in C07S } \cup { Not(g1) : g1 \in C07S } \cup { Call1(g1) : g1 \in C07S }
              \cup { Conj(g1, Conj(g2, g3)) : g1 \in {Q1(X), T1(Y)}, g2 \in {Cut, Q1(Y), Eq(X, Y)}, g3 \in {Cut, Fail, Q1(X)} }
-Gens == IF Tier = "quick" THEN GensQ ELSE GensQ \cup GensMore \cup C07Atoms \cup C07Level1
+Gens == IF Tier = "quick" THEN GensQ ELSE GensQ \cup GensMore
+GensC07 == (C07Atoms \cup C07Level1) \ Gens
 HatGens == { Hat(Y, S2(X, Y)), Hat(Y, R2(X, Y)), Hat(X, S2(X, Y)),
              Hat(Y, S3(X, Y, Z)), Hat(Z, S3(X, Y, Z)), Hat(Y, Hat(Z, S3(X, Y, Z))), Hat(C2("f", Y, Z), S3(X, Y, Z)),
              Hat(Y, G0), Hat(Y, Conj(S2(X, Y), Gt(Y, I(1)))) }
@@ -98,8 +99,21 @@ Forms ==
   \cup { [p |-> "bagof", g |-> C3("bagof", tm, gn, rs)] : tm \in Templates, gn \in Gens \cup HatGens, rs \in BagResults }
   \cup { [p |-> "setof", g |-> C3("setof", tm, gn, rs)] : tm \in Templates, gn \in Gens \cup HatGens, rs \in BagResults }
   \cup { [p |-> "forall", g |-> C2("forall", gn, ts)] : gn \in Gens, ts \in Tests }
-  \cup { [p |-> "countall", g |-> C2("countall", gn, k)] : gn \in Gens, k \in Counts }
-  \cup { [p |-> "call_nth", g |-> C2("call_nth", gn, k)] : gn \in Gens, k \in Nths }
+  (* the culprit of type_error(callable, _) for a non-callable goal of countall/call_nth is not documented (the library *)
+  (* reports its internal conjunction): only callable and unbound goals are given to them                             *)
+  \cup { [p |-> "countall", g |-> C2("countall", gn, k)] : gn \in Gens \ {I(1)}, k \in Counts }
+  \cup { [p |-> "call_nth", g |-> C2("call_nth", gn, k)] : gn \in Gens \ {I(1)}, k \in Nths }
+
+(* thorough: the goals of the C07 grammar as generators, with two templates and an unbound result *)
+FormsC07 ==
+       { [p |-> "findall3", g |-> C3("findall", tm, gn, L)] : tm \in {X, Pair(X, Y)}, gn \in GensC07 }
+  \cup { [p |-> "bagof", g |-> C3("bagof", tm, gn, L)] : tm \in {X, Pair(X, Y)}, gn \in GensC07 }
+  \cup { [p |-> "setof", g |-> C3("setof", tm, gn, L)] : tm \in {X, Pair(X, Y)}, gn \in GensC07 }
+  \cup { [p |-> "findall4", g |-> C("findall", <<X, gn, L, T0>>)] : gn \in GensC07 }
+  \cup { [p |-> "forall", g |-> C2("forall", gn, C1("atom", X))] : gn \in GensC07 }
+  \cup { [p |-> "countall", g |-> C2("countall", gn, N)] : gn \in GensC07 }
+  \cup { [p |-> "call_nth", g |-> C2("call_nth", gn, N)] : gn \in GensC07 }
+AllForms == IF Tier = "quick" THEN Forms ELSE Forms \cup FormsC07
 
 FollowUp == C3("findall", V9, T1(V9), L2)
 Wraps == { "plain", "catch", "nested" }
@@ -111,7 +125,7 @@ Wrap(w, g) == CASE w = "plain" -> g
 NextQuery == ConjOf(<<C3("findall", X, T1(X), L), C2("countall", Q1(Y), N), C3("setof", Z, Hat(W, S2(Z, W)), L2)>>)
 
 (* ---- random nesting for simulation: all-solutions goals as generators of all-solutions goals ---- *)
-RGenBase(u) == RandomElement(GensQ \cup GensMore)
+RGenBase(u) == RandomElement((GensQ \cup GensMore) \ {I(1)})
 RTemplate(u) == RandomElement(TemplatesQ \cup { Pair(Y, X), Z, Pair(X, Z) })
 RECURSIVE RAll(_)
 RAll(dd) ==
@@ -143,8 +157,8 @@ Init == m = [phase |-> "gen"]
 Gen ==
   /\ m.phase = "gen"
   /\ IF Mode = "exh"
-     THEN \E f \in Forms : \E w \in Wraps : m' = [phase |-> "case", p |-> f.p, w |-> w, q |-> Wrap(w, f.g)]
-     ELSE LET w == RandomElement(Wraps) IN m' = [phase |-> "case", p |-> "random", w |-> w, q |-> Wrap(w, RAll(RandomElement(0..2)))]
+     THEN \E f \in AllForms : \E w \in Wraps : m' = [phase |-> "case", p |-> f.p, w |-> w, q |-> Wrap(w, f.g)]
+     ELSE m' = [phase |-> "case", p |-> "random", w |-> "random", q |-> Wrap(RandomElement(Wraps), RAll(RandomElement(0..2)))]
 RunCase ==
   /\ m.phase = "case"
   /\ LET r == RunAS(LoadAS(m.q), TRUE)
@@ -154,7 +168,7 @@ RunCase ==
                 ELSE r
      IN m' = [phase |-> "res", p |-> m.p, w |-> m.w, q |-> m.q, qv |-> r.m.qv, status |-> r.m.status, ans |-> r.m.ans,
               ball |-> r.m.ball, balts |-> r.m.balts, steps |-> r.m.steps, ok |-> r.ok /\ alt.ok,
-              same |-> (alt.m.status = r.m.status /\ alt.m.ball = r.m.ball /\ Len(alt.m.ans) = Len(r.m.ans))]
+              same |-> (alt.m.status = r.m.status /\ alt.m.ball = r.m.ball /\ alt.m.ans = r.m.ans)]
 Next == Gen \/ RunCase
 
 (* what TLC decides: machine invariants at every step, the collector stack empty in every terminal state *)
